@@ -41,6 +41,8 @@ const SERVER_OVERLOADED_ERROR: &[u8] = b"ERROR reason=SERVER_OVERLOADED detail=\
 
 const MAX_IOVS: usize = 128;
 
+const MIN_PAYLOAD_BUFFER_SIZE: usize = 256;
+
 /// Represents the current state of a client connection in the protocol flow.
 ///
 /// Client connections progress through these states in a strictly forward-only manner.
@@ -312,12 +314,22 @@ impl<ST: Service> ConnManager<ST> {
     // Create message buffer pool
     let message_buffer_pool = Pool::new(max_message_pool_buffers, conn_cfg.max_message_size as usize);
 
+    // Bucket sizes are MIN_PAYLOAD_BUFFER_SIZE * 2^k. Every payload length up to the advertised
+    // `max_payload_size` must fit some bucket, so the largest bucket is the first size that is not
+    // smaller than the limit, and the budget always pays for at least one buffer of that size
+    // (the largest bucket receives half of the budget).
+    let mut max_payload_buffer_size = MIN_PAYLOAD_BUFFER_SIZE;
+    while max_payload_buffer_size < conn_cfg.max_payload_size as usize {
+      max_payload_buffer_size *= 2;
+    }
+    let payload_pool_memory_budget = (conn_cfg.payload_pool_memory_budget as usize).max(2 * max_payload_buffer_size);
+
     // Create the bucketed pool with the configured memory budget.
     // The pool will distribute the budget across different size buckets.
     let payload_buffer_pool = BucketedPool::new_with_memory_budget(
-      256,                                          // min buffer size
-      conn_cfg.max_payload_size as usize,           // max buffer size
-      conn_cfg.payload_pool_memory_budget as usize, // total memory budget
+      MIN_PAYLOAD_BUFFER_SIZE,    // min buffer size
+      max_payload_buffer_size,    // max buffer size
+      payload_pool_memory_budget, // total memory budget
       max_payload_buffers_per_bucket,               // max buffers per bucket
       2,                                            // 2x growth between buckets
       0.5,                                          // 50% decay
